@@ -12,6 +12,7 @@ import (
 	"fmt"
 	"go/types"
 	"reflect"
+	"sort"
 	"strconv"
 	"strings"
 
@@ -232,6 +233,42 @@ func (i *interpreter) jsonDecode(raw []byte, t types.Type, old value) (value, er
 			cur[f] = v
 		}
 		return cur, nil
+	case *types.Map:
+		if trimmed == "null" {
+			return old, nil
+		}
+		if b, ok := u.Key().Underlying().(*types.Basic); !ok || b.Kind() != types.String {
+			break
+		}
+		keys, vals, err := jsonObjectMembers([]byte(trimmed))
+		if err != nil {
+			return nil, fmt.Errorf("json: cannot unmarshal into Go value of type %s", t)
+		}
+		m, _ := old.(*smap)
+		if m == nil {
+			m = makeMap(u.Key())
+		}
+		for k := range keys {
+			var prev value = zero(u.Elem())
+			if pv, ok := i.mapLookup(m, keys[k]); ok {
+				prev = pv
+			}
+			v, err := i.jsonDecode(vals[k], u.Elem(), prev)
+			if err != nil {
+				return nil, err
+			}
+			i.mapInsert(m, keys[k], v)
+		}
+		return m, nil
+	case *types.Interface:
+		if u.NumMethods() != 0 {
+			break
+		}
+		var nat interface{}
+		if err := json.Unmarshal([]byte(trimmed), &nat); err != nil {
+			return nil, fmt.Errorf("json: cannot unmarshal into Go value of type %s", t)
+		}
+		return i.jsonDynamic(nat), nil
 	case *types.Pointer:
 		if trimmed == "null" {
 			return (*value)(nil), nil
@@ -244,6 +281,102 @@ func (i *interpreter) jsonDecode(raw []byte, t types.Type, old value) (value, er
 		return &cell, nil
 	}
 	panic(unsupported{"json.Unmarshal model: destination type " + t.String()})
+}
+
+var (
+	jsonEmptyIface = types.NewInterfaceType(nil, nil).Complete()
+	jsonAnySlice   = types.NewSlice(jsonEmptyIface)
+	jsonAnyMap     = types.NewMap(types.Typ[types.String], jsonEmptyIface)
+)
+
+// jsonObjectMembers returns the members of a JSON object in document order
+// (a later duplicate name overwrites an earlier one when inserted, as in
+// encoding/json).
+func jsonObjectMembers(raw []byte) ([]string, []json.RawMessage, error) {
+	dec := json.NewDecoder(strings.NewReader(string(raw)))
+	tok, err := dec.Token()
+	if err != nil {
+		return nil, nil, err
+	}
+	if d, ok := tok.(json.Delim); !ok || d != '{' {
+		return nil, nil, fmt.Errorf("not an object")
+	}
+	var keys []string
+	var vals []json.RawMessage
+	for dec.More() {
+		kt, err := dec.Token()
+		if err != nil {
+			return nil, nil, err
+		}
+		k, ok := kt.(string)
+		if !ok {
+			return nil, nil, fmt.Errorf("object key is not a string")
+		}
+		var v json.RawMessage
+		if err := dec.Decode(&v); err != nil {
+			return nil, nil, err
+		}
+		keys = append(keys, k)
+		vals = append(vals, v)
+	}
+	return keys, vals, nil
+}
+
+// jsonDynamic converts what encoding/json stores in an interface{} into the
+// interpreter's representation of the same dynamic value.
+func (i *interpreter) jsonDynamic(nat interface{}) value {
+	switch x := nat.(type) {
+	case nil:
+		return iface{}
+	case bool:
+		return iface{t: types.Typ[types.Bool], v: x}
+	case float64:
+		return iface{t: types.Typ[types.Float64], v: x}
+	case string:
+		return iface{t: types.Typ[types.String], v: x}
+	case []interface{}:
+		out := make([]value, len(x))
+		for k, e := range x {
+			out[k] = i.jsonDynamic(e)
+		}
+		return iface{t: jsonAnySlice, v: out}
+	case map[string]interface{}:
+		keys := make([]string, 0, len(x))
+		for k := range x {
+			keys = append(keys, k)
+		}
+		sort.Strings(keys)
+		m := makeMap(types.Typ[types.String])
+		for _, k := range keys {
+			i.mapInsert(m, k, i.jsonDynamic(x[k]))
+		}
+		return iface{t: jsonAnyMap, v: m}
+	}
+	panic(unsupported{fmt.Sprintf("json model: dynamic value %T", nat)})
+}
+
+func jsonOmitEmpty(v value) bool {
+	switch x := v.(type) {
+	case iface:
+		return x.t == nil
+	case bool:
+		return !x
+	case string:
+		return x == ""
+	case float64:
+		return x == 0
+	case []value:
+		return len(x) == 0
+	case *smap:
+		return x.len() == 0
+	case *value:
+		return x == nil
+	case int:
+		return x == 0
+	case int64:
+		return x == 0
+	}
+	return false
 }
 
 // extJSONMarshal: a slice (or a single value) of types that implement
@@ -295,10 +428,111 @@ func (i *interpreter) jsonEncode(fr *frame, t types.Type, v value) ([]value, err
 		}
 		return append(out, byte(']')), nil
 	case *types.Basic:
-		if u.Kind() == types.String {
-			b, _ := json.Marshal(v.(string))
+		switch x := v.(type) {
+		case string:
+			b, _ := json.Marshal(x)
 			return bytesValue(b), nil
+		case bool:
+			b, _ := json.Marshal(x)
+			return bytesValue(b), nil
+		case float64:
+			b, err := json.Marshal(x)
+			if err != nil {
+				return nil, err
+			}
+			return bytesValue(b), nil
+		case int:
+			return bytesValue([]byte(strconv.Itoa(x))), nil
+		case int64:
+			return bytesValue([]byte(strconv.FormatInt(x, 10))), nil
 		}
+	case *types.Interface:
+		d, ok := v.(iface)
+		if !ok || d.t == nil {
+			return bytesValue([]byte("null")), nil
+		}
+		return i.jsonEncode(fr, d.t, d.v)
+	case *types.Pointer:
+		p, _ := v.(*value)
+		if p == nil {
+			return bytesValue([]byte("null")), nil
+		}
+		return i.jsonEncode(fr, u.Elem(), load(u.Elem(), p))
+	case *types.Map:
+		m, _ := v.(*smap)
+		if m == nil {
+			return bytesValue([]byte("null")), nil
+		}
+		type kv struct {
+			k string
+			v value
+		}
+		var ents []kv
+		for _, e := range m.ents {
+			ks, ok := e.k.(string)
+			if !ok {
+				panic(unsupported{"json.Marshal model: map key is not a concrete string"})
+			}
+			ents = append(ents, kv{ks, e.v})
+		}
+		sort.Slice(ents, func(a, b int) bool { return ents[a].k < ents[b].k })
+		out := []value{byte('{')}
+		for k, e := range ents {
+			if k > 0 {
+				out = append(out, byte(','))
+			}
+			kb, _ := json.Marshal(e.k)
+			out = append(out, bytesValue(kb)...)
+			out = append(out, byte(':'))
+			b, err := i.jsonEncode(fr, u.Elem(), e.v)
+			if err != nil {
+				return nil, err
+			}
+			out = append(out, b...)
+		}
+		return append(out, byte('}')), nil
+	case *types.Struct:
+		st := v.(structure)
+		out := []value{byte('{')}
+		first := true
+		for f := 0; f < u.NumFields(); f++ {
+			fld := u.Field(f)
+			if !fld.Exported() {
+				continue
+			}
+			name := fld.Name()
+			omit := false
+			if tag := reflect.StructTag(u.Tag(f)).Get("json"); tag != "" {
+				parts := strings.Split(tag, ",")
+				if parts[0] == "-" && len(parts) == 1 {
+					continue
+				}
+				if parts[0] != "" {
+					name = parts[0]
+				}
+				for _, o := range parts[1:] {
+					if o == "omitempty" {
+						omit = true
+					}
+				}
+			}
+			if omit && jsonOmitEmpty(st[f]) {
+				continue
+			}
+			if !first {
+				out = append(out, byte(','))
+			}
+			first = false
+			kb, _ := json.Marshal(name)
+			out = append(out, bytesValue(kb)...)
+			out = append(out, byte(':'))
+			b, err := i.jsonEncode(fr, fld.Type(), st[f])
+			if err != nil {
+				return nil, err
+			}
+			out = append(out, b...)
+		}
+		return append(out, byte('}')), nil
 	}
 	panic(unsupported{"json.Marshal model: source type " + t.String()})
 }
